@@ -87,6 +87,29 @@ def plan(tier):
                               data='canary seed of every frame (32-bit): symbolic',
                               bounds='<= 3 simultaneously live frames, <= 6 create/complete operations',
                               outside='two threads on one reusable_storage_mtsafe (E2 half)'))
+    for part in (0, 2):
+        base_progs = ovl(3, 6)
+        vo = []
+        for v in base_progs:
+            ops = v[1:]
+            creates = [i for i, o in enumerate(ops) if o < 2]
+            for fmask in range(1, 1 << len(creates)):
+                if quick and bin(fmask).count('1') != 1: continue
+                out = [v[0]]
+                for i, o in enumerate(ops):
+                    out.append(o)
+                    if o < 2: out.append(1 if (fmask >> creates.index(i)) & 1 else 0)
+                vo.append(out)
+        vo = dedup(vo)
+        key = [[6, 0, 0, 0, 1, 0, 0, 2, 3, 4], [6, 1, 0, 0, 1, 1, 0, 2, 3, 4], [6, 0, 0, 1, 1, 1, 0, 3, 2, 4], [4, 0, 0, 2, 1, 1, 3], [4, 1, 0, 2, 0, 1, 3], [6, 0, 0, 0, 0, 0, 1, 2, 3, 4]]
+        if quick: vo = dedup(key + vo[:: max(1, len(vo) // 50)])
+        units.append(dict(engine='e1', name='h_ovl_oom_p%d' % part, tu='C19.cpp', defines=('C19_PART=%d' % part,), entry='h_ovl_oom', unwind=14, vectors=vo,
+                          concrete=pick(vo, (5, 6, 7)), cbmc_extra=FS, timeout=600,
+                          space='policy %s, overlapping frame lifetimes with allocation failures [nops, (op, fails)...]: create/complete programs with <= 3 frames and <= 6 operations in which %s creation meets '
+                                'std::bad_alloc at its first operator new (vf_new_fail_at; steps that refer to a frame whose creation failed are skipped)' %
+                                (['default_storage', '', 'reusable_storage_mtsafe'][part], 'exactly one' if quick else 'at least one') + ('; 6 hand-picked programs plus an evenly spread selection of 50' if quick else ''),
+                          data='canary seed of every frame (32-bit): symbolic', bounds='<= 3 frames, one failing allocation per creation',
+                          outside='allocation failure anywhere else than at the first operator new of a creation; failures inside the harness\'s own futures'))
     units.append(dict(engine='e1', name='h_stack2', tu='C19.cpp', defines=('C19_PART=3',), entry='h_stack2', unwind=14,
                       vectors=[[w, a, b] for w in (0, 1, 2) for a in (0, 1) for b in (0, 1)], concrete=[([0, 0, 0], [5, 6]), ([1, 1, 1], [7, 8]), ([2, 0, 1], [1, 2])],
                       cbmc_extra=('--max-field-sensitivity-array-size', '300'),
